@@ -344,7 +344,13 @@ impl VM {
                 }
                 OpCode::Call => {
                     let num_args = self.read_u8();
-                    let base_pointer = self.stack.len() as u16 - 1 - num_args as u16;
+                    let base_pointer = self.stack.len() - 1 - num_args as usize;
+                    if base_pointer > u16::MAX as usize {
+                        return Err(Error::ArgumentError(
+                            "de stapel is vol: te veel geneste functie aanroepen".to_string(),
+                        ));
+                    }
+                    let base_pointer = base_pointer as u16;
                     let obj = self.pop();
                     if obj.tag() != Type::Function {
                         return Err(Error::TypeError(format!(
@@ -353,6 +359,12 @@ impl VM {
                         )));
                     }
                     let [ip, num_locals] = obj.as_function();
+                    if num_args as u32 > num_locals {
+                        return Err(Error::ArgumentError(format!(
+                            "functie verwacht maximaal {} argumenten, maar kreeg er {}",
+                            num_locals, num_args
+                        )));
+                    }
 
                     // Make room on the stack for any local variables defined inside this function
                     for _ in 0..num_locals - num_args as u32 {
